@@ -3,7 +3,7 @@
 import json, glob, os, re
 rows = []
 for d in sorted(glob.glob('/verif/seeded/C*-*')):
-    m = json.load(open(os.path.join(d, 'meta.json')))
+    m = json.load(open(os.path.join(d, 'meta.json'), errors='replace'))
     name = os.path.basename(d)
     notes = open(os.path.join(d, 'notes.md')).read() if os.path.exists(os.path.join(d, 'notes.md')) else ''
     title = next((l.lstrip('# ').strip() for l in notes.splitlines() if l.startswith('#')), '')
@@ -12,7 +12,7 @@ for d in sorted(glob.glob('/verif/seeded/C*-*')):
     missed = [c['check'] for c in m['checks_run'] if c['exit'] == 'rc=0']
     own = next((c for c in m['checks_run'] if c['check'] == m['property']), None)
     rows.append((name, title, own, caught, missed, m))
-with open('/verif/seeded/RESULTS.md', 'w') as f:
+with open('/verif/seeded/RESULTS.md', 'w', errors='replace') as f:
     f.write("# Breaking changes written by independent sub-agents\n\n")
     f.write("Each change was written by a fresh sub-agent that saw only the text of one property and a scratch\n"
             "worktree of /repo. Every one compiles, passes the repository's own suite, and fails its own\n"
@@ -51,5 +51,45 @@ changes arrived, these were not reported by the property's own check:
 | C19-1 | silent | C19 case "reentrant-native": one native re-entered 1-5 levels deep through script code it calls back, every activation re-reads its arguments after the nested one returned |
 | C19-2 | C19 silent (C09 reported it) | C19 calls every native also as the sole operand of `return` in a forwarding function, the variadic form with its surplus spread from a slice |
 | C20-1 | silent | C20 call chains contain function literals before the line of interest |
+
+Second round (changes 3-5 of each property; the sub-agents were told the titles of the first two so as not to repeat them):
+
+| change | first result | what was added |
+|---|---|---|
+| C01-4 | silent | generator: a parameter named like an imported package, with field stores through it |
+| C03-3 | silent (C14 had reported the same kind of change in round 1) | C03 ill-formed catalogue: cyclic values reaching println / fmt / panic texts |
+| C03-4 | INCONCLUSIVE after 30 min (a loader that loops) | per-input watchdog inside the workers and confirmation in a separate process; workers die with their parent; the test-only directory that triggers it was already generated |
+| C03-5 | silent | type expressions nested beyond the width of a packed type, with the dump options |
+| C04-5 | C04 silent (C01 reported it) | every typed-constant context returns `any` (no return conversion hides an untyped store); variadic, method, multi-result, nested-composite contexts |
+| C05-4 | silent | every expression is also evaluated as the body of a function over parameters |
+| C06-3, C06-4, C06-5 | C06 silent (C01/C02/C07 reported two of them) | varied spelling of every shape: compound conditions with fusible operands, loop variable redeclared in the body, case lists of mixed length |
+| C07-3 | C07 silent (C01 reported it) | monitor rule T9: the own slots of a new frame are blank |
+| C07-5 | silent | wide-frame programs (100-300 locals), also in C01 |
+| C08-5 | C08 silent (C01 reported it after the C01-4 change) | two-package programs with names shadowing the imported package |
+| C09-3 | silent | spread calls through methods reached as attributes of locals, fields and globals |
+| C09-4 | silent | ill-formed call table: variadic callees with fewer arguments than fixed parameters, with live locals around |
+| C10-3 | silent | `maps.Clone`, then one insert into the original and one into the clone |
+| C10-5 | silent | float64 / uint8 elements observed through type-sensitive expressions |
+| C11-3 | silent | make / literal lengths up to 20 |
+| C11-4 | silent | element types float64 / uint8 with a type-sensitive probe of the first element |
+| C12-4 | silent | up to 700 junk names before the type, receiver-guarding methods called on nil references, a second type declared late |
+| C12-5 | C12 silent (C01 reported it) | struct types and methods in imported packages (nested paths, two packages of one name) |
+| C13-3 | silent | `string(b)` for byte / s[i] / int8 / uint32 operands |
+| C14-5 | silent | struct references printed after their type declaration ran several times |
+| C15-3, C15-4, C15-5 | silent | top-level block statements in imported packages; comments mentioning `package` around build constraints; adjacent `_test.go` files |
+| C16-4 | C16 silent (C01 reported it) | a 20-field type and a narrow type reusing two of its names sixteen apart |
+| C16-5 | silent | struct types sharing field names in another order, printed whole |
+| C17-4 | C17 silent (C01 reported it) | a function whose locals shadow package variables, updated with `+=` and `++` |
+| C17-5 | silent | variables whose initialiser spells the zero value |
+| C18-3 | C18 silent (C01/C07 reported it) | long programs (50-140 top-level block statements) |
+| C18-4 | silent | block header variables named like existing globals |
+| C18-5 | silent | function literals declaring same-named local types |
+| C19-3 | C19 silent (C01 reported it) | -0 and Inf as arguments and results, boundary floats in the round trip |
+| C19-4 | silent | the native held in a struct field and called with a spread slice through a local; every call's received arguments are judged, not only the last |
+| C19-5 | C19 silent (C01/C07 reported it) | typed multi-variable declaration initialised from a multi-result native |
+
+While these inputs were added, the strengthened checks met eight more genuine defects of the pinned tree
+(F44-F50 and K05, K06 in known_findings.json), among them two the C03 sub-agent had noticed on the
+unchanged tree while looking for places to plant its changes.
 """)
 print(open('/verif/seeded/RESULTS.md').read())
